@@ -2,8 +2,13 @@ import RedunModel.Proto
 import RedunModel.Model.BStruct
 open RedunModel RedunModel.BStruct
 
-/- request: `enc <pyval>` with pyval ::= i<int> | T | F | N | f | s<hex> | b<hex> | (L v*) | (U v*) | (D (k v)*)
-   reply: hex of the encoding, or `!TypeError` -/
+/- requests:
+   `enc <pyval>`  reply: hex of the encoding, or `!TypeError`
+   `dec <hex>`    reply: `ok <dval> <unread byte count>` or `!TypeError|!ValueError|!AssertionError|!OverflowError`
+                  with dval ::= N | i<int> | b<hex> | (L dval*) | (D (b<hex> dval)*)  -- the Python dict view (`canonD`)
+   `decraw <hex>` same, dict items in stream order (duplicates kept)
+   pyval ::= i<int> | T | F | N | f | s<hex> | b<hex> | (L v*) | (U v*) | (D (k v)*)
+-/
 mutual
   partial def toPy : Sexp → Option PyVal
     | .atom "T" => some (.bool true)
@@ -43,6 +48,36 @@ mutual
     | _ => none
 end
 
+mutual
+  partial def showD : DVal → String
+    | .none => "N"
+    | .int z => atomOfInt z
+    | .bytes b => atomOfBytes b
+    | .list l => "(L" ++ showDList l ++ ")"
+    | .dict d => "(D" ++ showDDict d ++ ")"
+  partial def showDList : DList → String
+    | .nil => ""
+    | .cons v t => " " ++ showD v ++ showDList t
+  partial def showDDict : DDict → String
+    | .nil => ""
+    | .cons k v t => " (" ++ atomOfBytes k ++ " " ++ showD v ++ ")" ++ showDDict t
+end
+
+def showErr : DErr → String
+  | .type => "!TypeError"
+  | .value => "!ValueError"
+  | .assertion => "!AssertionError"
+  | .overflow => "!OverflowError"
+  | .fuel => "!MODEL-OUT-OF-FUEL"
+
+def decReply (view : DVal → DVal) (h : String) : String :=
+  match bytesOfHex h with
+  | none => "bad-value"
+  | some bs =>
+    match decode bs with
+    | .ok (v, rest) => "ok " ++ showD (view v) ++ " " ++ toString rest.length
+    | .error e => showErr e
+
 def step (_ : Unit) (line : String) : Unit × String :=
   match Sexp.parseLine line with
   | some [.atom "enc", x] =>
@@ -51,6 +86,10 @@ def step (_ : Unit) (line : String) : Unit × String :=
       | some b => ((), hexOfBytes (enc b))
       | none => ((), "!TypeError")
     | none => ((), "bad-value")
+  | some [.atom "dec", .atom h] => ((), decReply canonD h)
+  | some [.atom "dec"] => ((), decReply canonD "")
+  | some [.atom "decraw", .atom h] => ((), decReply id h)
+  | some [.atom "decraw"] => ((), decReply id "")
   | _ => ((), "bad-op")
 
 def main : IO Unit := do driverLoop (← IO.getStdin) () step
